@@ -7,8 +7,8 @@ package main
 
 import (
 	"fmt"
-	"reflect"
 	"go/types"
+	"reflect"
 	"sort"
 	"strings"
 
